@@ -24,12 +24,14 @@ COMPARES = ["v = o.x {c} {k}", "v = {k} {c} o.x", "assert o.x {c} {k} or True", 
 ASSIGNS = ["o.x = {k}", "o.x = v + {k}", "o.x = o.x + {k}", "o.x = o.x", "o.x = v = {k}", "o.x, v = {k}, {k}",
            "o.x = o2.x", "o.x, o2.x = o2.x, o.x"]
 # the right-hand side may read the attribute again, of the same or of another instance of the class
+# (p is an instance of ANOTHER class that declares a thread-safe attribute of the same name)
 AUG_SELF = ["o.x {a} {k}", "o.x {a} v", "o . x {a} {k}", "o.x{a}{k}", "o.x {a} o.x", "o.x {a} o2.x",
-            "o.x {a} o.x + {k}", "o.x {a} max(o.x, {k})"]
+            "o.x {a} o.x + {k}", "o.x {a} max(o.x, {k})", "o.x {a} p.x", "p.x {a} o.x", "o.x {a} h.x"]
 # the attribute looked up on the class instead of an instance
 CLASSREAD = ["v = K.x", "v = getattr(K, 'x')", "v = hasattr(K, 'x')", "v = type(o).x", "v = K.x {c} {k}",
              "v = [n for n in dir(K) if getattr(K, n, None) is None]"]
-AUG_OTHER = ["v {a} o.x", "w[0] {a} o.x", "h.n {a} o.x", "v {a} o.x + {k}"]
+# (h is a plain object; its ordinary attribute x merely has the same name)
+AUG_OTHER = ["v {a} o.x", "w[0] {a} o.x", "h.n {a} o.x", "v {a} o.x + {k}", "h.x {a} o.x", "h.x {a} o.x + p.x"]
 LOCKFORM = ["_, _lock = o.x", "_, _lock  = o.x", "_, _lock = o.x\nwith _lock:\n  o.x = {k}",
             "_, _lock = o.x\nwith _lock:\n  o.x {a} {k}\n  v = o.x {c} {k}",
             "_, _lock = o.x\nwith _lock:\n  v {a} o.x"]
@@ -97,7 +99,9 @@ class C28(Prop):
           "form alone and followed by a 'with _lock:' block that uses the attribute, trailing comments that mention operators, and statements on the ITEMS "
           "of an attribute that holds a list (o.x[0] += k, o.x[0] = k, o.x.append(k), ...), augmented "
           "assignments whose right side reads the attribute again (o.x += o.x, o.x += o2.x for a second "
-          "instance of the class), and reads of the attribute through the class (K.x, getattr(K, 'x'), dir). The "
+          "instance of the class, o.x += p.x / p.x += o.x for an instance p of another class that declares an "
+          "attribute of the same name, h.x += o.x for a plain object h whose ordinary attribute has that name), "
+          "and reads of the attribute through the class (K.x, getattr(K, 'x'), dir). The "
           "statement is written to a real source file (miros inspects the caller's source line), "
           "compiled and executed once by the calling thread. Oracle: afterwards the attribute's lock "
           "(threading.RLock substituted in miros.thread_safe_attributes by a depth-counting "
@@ -154,14 +158,17 @@ class C28(Prop):
       locks = list(CountingRLock.created)
       if len(locks) != 1:
         raise PropertyViolation("expected one lock for one attribute, found %d" % len(locks), "C28:harness")
-      lock = locks[0]
+      other = type("VfOtherHolder", (miros.ThreadSafeAttributes,), {"_attributes": ["x"]})
+      locks = list(CountingRLock.created)
+      p_ = other()
+      p_.x = [case["initial"], 1, 2] if case["family"] == "item" else case["initial"]
       o = klass()
       o2 = klass()
       o.x = [case["initial"], 1, 2] if case["family"] == "item" else case["initial"]
       o2.x = [case["initial"], 1, 2] if case["family"] == "item" else case["initial"]
       path = os.path.join(d, "vf_stmt_case.py")
       body = "\n".join("  " + l for l in stmt.split("\n"))
-      src = "def run(o, v, w, h, o2, K):\n%s\n  return None\n" % body
+      src = "def run(o, v, w, h, o2, K, p):\n%s\n  return None\n" % body
       with open(path, "w") as f:
         f.write(src)
       linecache.checkcache(path)
@@ -170,19 +177,29 @@ class C28(Prop):
 
       class H:
         n = 1
+        x = 1
       try:
-        ns["run"](o, 1, [1, 2, 3], H(), o2, klass)
+        ns["run"](o, 1, [1, 2, 3], H(), o2, klass, p_)
       except Exception as e:
         raise PropertyViolation("statement %r raised %s: %s" % (stmt, type(e).__name__, e), "C28:raised")
-      held = lock.depth
+      held = sum(l.depth for l in locks)
       got = []
-      t = threading.Thread(target=lambda: got.append(lock._l.acquire(False)) or (got[-1] and lock._l.release()))
+
+      def probe():
+        ok = True
+        for l in locks:
+          if l._l.acquire(False):
+            l._l.release()
+          else:
+            ok = False
+        got.append(ok)
+      t = threading.Thread(target=probe)
       t.start()
       t.join()
       if held != 0 or got != [True]:
         b = {"compare": "C28:comparison-keeps-lock", "aug_other": "C28:augassign-other-target",
              "comment": "C28:operator-in-comment"}.get(case["family"], "C28:keeps-lock")
-        self.violation(stats, "after %r the calling thread still holds the attribute's lock "
+        self.violation(stats, "after %r the calling thread still holds an attribute's lock "
                        "(depth %d; another thread can%s acquire it)" % (
                          stmt, held, "" if got == [True] else "not"), b)
     finally:
